@@ -215,7 +215,7 @@ fn dfs(ctx: &mut Ctx, c: &Cfg15, trace: &mut Vec<Act>, nlocal: usize, visited: &
     let acts = enabled(c, &m, nlocal);
     drop(m);
     for a in acts {
-        if trace.is_empty() {
+        if trace.len() == 1 {
             *idx += 1;
             if !ctx.mine(*idx) {
                 continue;
@@ -358,7 +358,7 @@ fn udfs(ctx: &mut Ctx, fam: Fam, level: u8, max: usize, trace: &mut Vec<UA>, vis
     }
     drop((a, b));
     for act in acts {
-        if trace.is_empty() {
+        if trace.len() == 1 {
             *idx += 1;
             if !ctx.mine(*idx) {
                 continue;
